@@ -45,11 +45,12 @@ var allInstants = []Instant{
 	{"T+1s", world.T0.Add(time.Second)},
 	{"pre2", time.Date(1955, 5, 5, 5, 5, 5, 0, time.UTC)},
 	{"T-500ms", world.T0.Add(-500 * time.Millisecond)},
+	{"y1600", time.Date(1600, 1, 1, 0, 0, 0, 0, time.UTC)},
 }
 
 // oldDate is the date of the extra, older claim of odd permanodes (must be
 // before every instant so that modtime = the assigned instant).
-var oldDate = time.Date(1950, 1, 1, 0, 0, 0, 0, time.UTC)
+var oldDate = time.Date(1500, 1, 1, 0, 0, 0, 0, time.UTC)
 
 // attrModDate is the (fixed) claim date of permanode i in family "attr":
 // pairs of permanodes share a modification time.
@@ -57,11 +58,12 @@ func attrModDate(i int) time.Time { return world.T(-1000 + i/2) }
 
 // Spec identifies one world (JSON-able: it is the replay artefact).
 type Spec struct {
-	Family   string `json:"family"`    // "claim": claim date = instant (created == modified); "attr": dateCreated attribute = instant, fixed claim dates
-	N        int    `json:"n"`         // number of live permanodes
-	NInst    int    `json:"ninstants"` // size of the instant alphabet (prefix of allInstants)
-	Assign   []int  `json:"assign"`    // instant index per permanode
-	Mode     string `json:"mode"`      // "build": corpus built incrementally while receiving; "scan": corpus scanned from the index rows afterwards
+	Family   string `json:"family"`         // "claim": claim date = instant (created == modified); "attr": dateCreated attribute = instant, fixed claim dates
+	N        int    `json:"n"`              // number of live permanodes
+	NInst    int    `json:"ninstants"`      // size of the instant alphabet (prefix of allInstants)
+	Assign   []int  `json:"assign"`         // instant index per permanode
+	Mode     string `json:"mode"`           // "build": corpus built incrementally while receiving; "scan": corpus scanned from the index rows afterwards
+	RealHub  bool   `json:"-"`              // use search.NewHandler (with its perpetual hub goroutines) instead of the bare overlay constructor
 	Lean     bool   `json:"lean,omitempty"` // without the claim-less permanode pL and the permanode pX whose only claim is deleted (see othersort.go)
 	AssignHR string `json:"assign_names,omitempty"`
 }
@@ -254,8 +256,14 @@ func Build(spec Spec) (*World, error) {
 	default:
 		return nil, fmt.Errorf("unknown mode %q", spec.Mode)
 	}
-	h := search.NewHandler(x.Index, index.NewOwner(a.KeyID, a.Pub.Ref))
-	h.SetCorpus(corpus)
+	var h *search.Handler
+	if spec.RealHub {
+		// the production constructor: used for confirmations and replays
+		h = search.NewHandler(x.Index, index.NewOwner(a.KeyID, a.Pub.Ref))
+		h.SetCorpus(corpus)
+	} else {
+		h = search.VerifC09BareHandler(x.Index, index.NewOwner(a.KeyID, a.Pub.Ref), corpus)
+	}
 	w.Handler, w.Corpus = h, corpus
 	return w, nil
 }
